@@ -25,9 +25,10 @@ Definition parse_segment (k : str) : option (str * option Z) :=
   if (match last_opt k with Some x => N.eqb x ch_rb | None => false end)
      && str_contains_char ch_lb k
   then
-    (* k.split('[') : first part is the name, second part must be `digits]` *)
+    (* k.split('[') : first part is the name, second part must be `digits]`; since fix D37 a
+       third part (`a[0][1]`) makes the lookup fail instead of being ignored *)
     match split_on ch_lb k with
-    | name :: second :: _ =>
+    | [name; second] =>
         match strip_suffix [ch_rb] second with
         | Some i => match parse_usize i with
                     | Some n => Some (name, Some n)
